@@ -164,7 +164,7 @@ def run_cases(ctx, cases):
 
 def run(ctx):
     proof = prove('C02', ['engine'], ['C02_props'],
-                  static_deps=['Proofs/CbcProofs.v', 'Proofs/WindowProofs.v', 'Spec/StreamCipher.v', 'Env/FileIface.v'])
+                  static_deps=['Proofs/CbcProofs.v', 'Proofs/CbcChunkProofs.v', 'Proofs/WindowProofs.v', 'Spec/StreamCipher.v', 'Env/FileIface.v'])
     run_cases(ctx, (gen_case(ctx.rng) for _ in range(ctx.n(600, 20000))))
     extra = {}
     if not ctx.quick():
